@@ -82,8 +82,8 @@ fn oracles(b: &[u8]) -> Oracles {
                 probe(&mut o, k); probe(&mut o, v);
                 if k.len() >= 32 { probe(&mut o, &k[..32]); }
                 if k.len() >= 33 { probe(&mut o, &k[1..33]); }
-                if v.len() >= 10 && v.len() < 100_000 { if bitcoin::consensus::deserialize::<bitcoin::Transaction>(v).is_ok() { push_u(&mut o.btx, v); } }
-                if (*t == 0x0a || *t == 0x0c) && v.len() <= 4096 {
+                if v.len() >= 10 && v.len() < 300_000 { if bitcoin::consensus::deserialize::<bitcoin::Transaction>(v).is_ok() { push_u(&mut o.btx, v); } }
+                if (*t == 0x0a || *t == 0x0c) && v.len() <= 0x10001 {
                     let r = ripemd160::Hash::hash(v).to_byte_array().to_vec(); if !o.rip.iter().any(|(x, _)| x == v) { o.rip.push((v.clone(), r)); }
                     let h = hash160::Hash::hash(v).to_byte_array().to_vec(); if !o.h160.iter().any(|(x, _)| x == v) { o.h160.push((v.clone(), h)); }
                 }
@@ -278,6 +278,11 @@ pub fn eval(case: &str) -> Out {
 // ------------------------------------------------------------------------------------------------ generators
 fn rb(rng: &mut ChaCha20Rng, lo: usize, hi: usize) -> Vec<u8> { let n = rng.gen_range(lo..hi); rbytes(rng, n) }
 fn aid(b: &[u8]) -> Option<AssetId> { Some(AssetId::from_byte_array(<[u8; 32]>::try_from(b).ok()?)) }
+/// a byte string whose length is usually small and, one time in five, on either side of a compact-size boundary
+fn rbl(rng: &mut ChaCha20Rng, small_hi: usize) -> Vec<u8> {
+    let n = if rng.gen_range(0..5) == 0 { pk!(rng, [0xfbusize, 0xfc, 0xfd, 0xfe, 0x100]) } else { rng.gen_range(0..small_hi) };
+    rbytes(rng, n)
+}
 fn rxonly(rng: &mut ChaCha20Rng) -> XOnlyPublicKey { rpubkey(rng).x_only_public_key().0 }
 fn rbpk(rng: &mut ChaCha20Rng) -> bitcoin::PublicKey { let k = rpubkey(rng); if rng.gen_range(0..3) == 0 { bitcoin::PublicKey::new_uncompressed(k) } else { bitcoin::PublicKey::new(k) } }
 fn rkeysource(rng: &mut ChaCha20Rng) -> KeySource {
@@ -308,7 +313,7 @@ fn shapes(n: usize) -> Vec<Vec<usize>> {
 }
 fn taptree_of(rng: &mut ChaCha20Rng, depths: &[usize]) -> TapTree {
     let mut b = TaprootBuilder::new();
-    for d in depths { let s = Script::from(rb(rng, 0, 6)); b = b.add_leaf_with_ver(*d, s, rleafver(rng)).unwrap(); }
+    for d in depths { let s = Script::from(rbl(rng, 6)); b = b.add_leaf_with_ver(*d, s, rleafver(rng)).unwrap(); }
     TapTree::from_inner(b).unwrap()
 }
 fn rtaptree(rng: &mut ChaCha20Rng, maxleaves: usize) -> TapTree {
@@ -333,9 +338,9 @@ fn rpropkey(rng: &mut ChaCha20Rng) -> raw::ProprietaryKey {
     let prefix = pk!(rng, [b"pset".to_vec(), b"pset_hww".to_vec(), b"foo".to_vec(), vec![], rbytes(rng, 3), b"pse".to_vec(), b"psetx".to_vec()]);
     // prefix "pset" with a subtype no map knows (>= 0x40) is an ordinary proprietary key
     let subtype = if prefix == b"pset" { rng.gen_range(0x40..=0xff) } else { rng.gen() };
-    raw::ProprietaryKey { prefix, subtype, key: rb(rng, 0, 4) }
+    raw::ProprietaryKey { prefix, subtype, key: if rng.gen_range(0..8) == 0 { rbl(rng, 4) } else { rb(rng, 0, 4) } }
 }
-fn runknownkey(rng: &mut ChaCha20Rng) -> raw::Key { raw::Key { type_value: rng.gen_range(0x40..0xfb), key: rb(rng, 0, 4) } }
+fn runknownkey(rng: &mut ChaCha20Rng) -> raw::Key { raw::Key { type_value: rng.gen_range(0x40..0xfb), key: if rng.gen_range(0..8) == 0 { rbl(rng, 4) } else { rb(rng, 0, 4) } } }
 
 pub const N_GLOBAL: usize = 7;
 pub const N_INPUT: usize = 55;
@@ -349,8 +354,8 @@ fn set_global(p: &mut Pset, f: usize, rng: &mut ChaCha20Rng, tags: &mut Vec<Stri
         2 => { for _ in 0..rng.gen_range(1..4) { g.xpub.insert(rxpub(rng), rkeysource(rng)); } }
         3 => { for _ in 0..rng.gen_range(1..4) { let t = rtweak(rng); if !g.scalars.contains(&t) { g.scalars.push(t); } } }
         4 => g.elements_tx_modifiable_flag = Some(rng.gen()),
-        5 => { for _ in 0..rng.gen_range(1..4) { g.proprietary.insert(rpropkey(rng), rb(rng, 0, 5)); } }
-        _ => { for _ in 0..rng.gen_range(1..4) { g.unknown.insert(runknownkey(rng), rb(rng, 0, 5)); } }
+        5 => { for _ in 0..rng.gen_range(1..4) { g.proprietary.insert(rpropkey(rng), rbl(rng, 5)); } }
+        _ => { for _ in 0..rng.gen_range(1..4) { g.unknown.insert(runknownkey(rng), rbl(rng, 5)); } }
     }
     if f == 1 || f == 0 { g.tx_data.version = pk!(rng, [2u32, 1, 0, rng.gen()]); }
 }
@@ -360,17 +365,17 @@ fn set_input(i: &mut Input, f: usize, rng: &mut ChaCha20Rng, tags: &mut Vec<Stri
     match f {
         0 => i.non_witness_utxo = Some(rtx(rng, Feat { big: false, no_witness: false }, &mut vec![])),
         1 => i.witness_utxo = Some(rtxout(rng, Feat { big: false, no_witness: true }, &mut vec![])),
-        2 => { for _ in 0..k { i.partial_sigs.insert(rbpk(rng), rb(rng, 0, 73)); } }
+        2 => { for _ in 0..k { i.partial_sigs.insert(rbpk(rng), rbl(rng, 73)); } }
         3 => i.sighash_type = Some(PsbtSighashType::from_u32(pk!(rng, [1u32, 0x81, 0x41, 0, rng.gen()]))),
         4 => i.redeem_script = Some(rscript(rng, false)),
         5 => i.witness_script = Some(rscript(rng, false)),
         6 => { for _ in 0..k { i.bip32_derivation.insert(rbpk(rng), rkeysource(rng)); } }
         7 => i.final_script_sig = Some(rscript(rng, false)),
         8 => i.final_script_witness = Some(rstack(rng, false)),
-        9 => { for _ in 0..k { let v = rb(rng, 0, 40); i.ripemd160_preimages.insert(ripemd160::Hash::hash(&v), v); } }
-        10 => { for _ in 0..k { let v = rb(rng, 0, 40); i.sha256_preimages.insert(sha256::Hash::hash(&v), v); } }
-        11 => { for _ in 0..k { let v = rb(rng, 0, 40); i.hash160_preimages.insert(hash160::Hash::hash(&v), v); } }
-        12 => { for _ in 0..k { let v = rb(rng, 0, 40); i.hash256_preimages.insert(sha256d::Hash::hash(&v), v); } }
+        9 => { for _ in 0..k { let v = rbl(rng, 40); i.ripemd160_preimages.insert(ripemd160::Hash::hash(&v), v); } }
+        10 => { for _ in 0..k { let v = rbl(rng, 40); i.sha256_preimages.insert(sha256::Hash::hash(&v), v); } }
+        11 => { for _ in 0..k { let v = rbl(rng, 40); i.hash160_preimages.insert(hash160::Hash::hash(&v), v); } }
+        12 => { for _ in 0..k { let v = rbl(rng, 40); i.hash256_preimages.insert(sha256d::Hash::hash(&v), v); } }
         13 => i.sequence = Some(Sequence(rng.gen())),
         14 => i.required_time_locktime = Some(elements::locktime::Time::from_consensus(pk!(rng, [500_000_000u32, 0xffff_ffff, rng.gen_range(500_000_000..=u32::MAX)])).unwrap()),
         15 => i.required_height_locktime = Some(elements::locktime::Height::from_consensus(pk!(rng, [0u32, 499_999_999, rng.gen_range(0..500_000_000)])).unwrap()),
@@ -385,7 +390,7 @@ fn set_input(i: &mut Input, f: usize, rng: &mut ChaCha20Rng, tags: &mut Vec<Stri
         24 => i.issuance_value_rangeproof = Some(rrangeproof(rng)),
         25 => i.issuance_keys_rangeproof = Some(rrangeproof(rng)),
         26 => i.pegin_tx = Some(rbtctx(rng)),
-        27 => i.pegin_txout_proof = Some(rb(rng, 0, 80)),
+        27 => i.pegin_txout_proof = Some(rbl(rng, 80)),
         28 => i.pegin_genesis_hash = Some(BlockHash::from_byte_array(r32(rng))),
         29 => i.pegin_claim_script = Some(rscript(rng, false)),
         30 => i.pegin_value = Some(rng.gen()),
@@ -402,8 +407,8 @@ fn set_input(i: &mut Input, f: usize, rng: &mut ChaCha20Rng, tags: &mut Vec<Stri
         41 => i.asset = Some(rasset_id(rng)),
         42 => i.blind_asset_proof = Some(rsurjproof(rng)),
         43 => i.blinded_issuance = Some(rng.gen()),
-        44 => { for _ in 0..k { i.proprietary.insert(rpropkey(rng), rb(rng, 0, 5)); } }
-        45 => { for _ in 0..k { i.unknown.insert(runknownkey(rng), rb(rng, 0, 5)); } }
+        44 => { for _ in 0..k { i.proprietary.insert(rpropkey(rng), rbl(rng, 5)); } }
+        45 => { for _ in 0..k { i.unknown.insert(runknownkey(rng), rbl(rng, 5)); } }
         46 => i.previous_output_index = pk!(rng, [0u32, 0xffff_ffff, 0x4000_0000, 0x8000_0001, rng.gen()]),
         47 => i.previous_txid = Txid::from_byte_array(r32(rng)),
         48 => { i.partial_sigs.insert(bitcoin::PublicKey::new_uncompressed(rpubkey(rng)), vec![1]); i.partial_sigs.insert(bitcoin::PublicKey::new(rpubkey(rng)), vec![2]); i.partial_sigs.insert(bitcoin::PublicKey::new_uncompressed(rpubkey(rng)), vec![3]); i.partial_sigs.insert(bitcoin::PublicKey::new(rpubkey(rng)), vec![]); }
@@ -438,9 +443,50 @@ fn set_output(o: &mut Output, f: usize, rng: &mut ChaCha20Rng, tags: &mut Vec<St
             if rng.gen() { o.blind_value_proof = Some(rrangeproof(rng)); } if rng.gen() { o.blind_asset_proof = Some(rsurjproof(rng)); }
         }
         13 => { o.value_rangeproof = Some(rrangeproof(rng)); o.asset_surjection_proof = Some(rsurjproof(rng)); o.ecdh_pubkey = Some(rbpk(rng)); }   // proofs without a blinding key: not "marked"
-        14 => { for _ in 0..k { o.proprietary.insert(rpropkey(rng), rb(rng, 0, 5)); } }
-        15 => { for _ in 0..k { o.unknown.insert(runknownkey(rng), rb(rng, 0, 5)); } }
+        14 => { for _ in 0..k { o.proprietary.insert(rpropkey(rng), rbl(rng, 5)); } }
+        15 => { for _ in 0..k { o.unknown.insert(runknownkey(rng), rbl(rng, 5)); } }
         _ => { o.set_abf(AssetBlindingFactor::from_slice(&r32(rng).map(|x| x >> 1)).unwrap()); o.blind_value_proof = Some(rrangeproof(rng)); o.blind_asset_proof = Some(rsurjproof(rng)); }
+    }
+}
+/// Every place where a variable-length byte string (or a counted list) is nested inside a PSET value or key: put exactly `n`
+/// bytes (elements) there.  The sweep in `gen` runs every site over the lengths around each compact-size boundary.
+pub const N_SITES: usize = 27;
+fn set_site(p: &mut Pset, site: usize, n: usize, rng: &mut ChaCha20Rng) -> &'static str {
+    let bytes = rbytes(rng, n);
+    let script = Script::from(bytes.clone());
+    let hashes = |rng: &mut ChaCha20Rng, k: usize| -> Vec<TapLeafHash> { (0..k).map(|_| TapLeafHash::from_byte_array(r32(rng))).collect() };
+    let path = |rng: &mut ChaCha20Rng, k: usize| -> KeySource { (Fingerprint::from([1u8; 4]), DerivationPath::from((0..k).map(|_| ChildNumber::from(rng.gen::<u32>())).collect::<Vec<_>>())) };
+    match site {
+        0 => { let mut b = TaprootBuilder::new(); b = b.add_leaf_with_ver(0, script, rleafver(rng)).unwrap(); p.outputs_mut()[0].tap_tree = Some(TapTree::from_inner(b).unwrap()); "taptree-single-leaf-script" }
+        1 => { let mut b = TaprootBuilder::new(); b = b.add_leaf_with_ver(1, script, rleafver(rng)).unwrap(); b = b.add_leaf_with_ver(1, Script::from(vec![0x51]), rleafver(rng)).unwrap(); p.outputs_mut()[0].tap_tree = Some(TapTree::from_inner(b).unwrap()); "taptree-first-leaf-script" }
+        2 => { let mut b = TaprootBuilder::new(); b = b.add_leaf_with_ver(1, Script::from(vec![0x51]), rleafver(rng)).unwrap(); b = b.add_leaf_with_ver(2, script.clone(), rleafver(rng)).unwrap(); b = b.add_leaf_with_ver(2, script, rleafver(rng)).unwrap(); p.outputs_mut()[0].tap_tree = Some(TapTree::from_inner(b).unwrap()); "taptree-later-leaf-scripts" }
+        3 => { p.inputs_mut()[0].tap_scripts.insert(rcontrolblock(rng), (script, rleafver(rng))); "tap-leaf-script-value" }
+        4 => { p.inputs_mut()[0].redeem_script = Some(script); "in-redeem-script" }
+        5 => { p.inputs_mut()[0].witness_script = Some(script); "in-witness-script" }
+        6 => { p.inputs_mut()[0].final_script_sig = Some(script); "final-script-sig" }
+        7 => { p.inputs_mut()[0].pegin_claim_script = Some(script); "pegin-claim-script" }
+        8 => { p.outputs_mut()[0].script_pubkey = script; "out-script" }
+        9 => { p.outputs_mut()[0].redeem_script = Some(script.clone()); p.outputs_mut()[0].witness_script = Some(script); "out-redeem-witness-script" }
+        10 => { p.global.unknown.insert(raw::Key { type_value: 0x77, key: vec![1] }, bytes.clone()); p.inputs_mut()[0].unknown.insert(raw::Key { type_value: 0x77, key: vec![] }, bytes.clone()); p.outputs_mut()[0].unknown.insert(raw::Key { type_value: 0x77, key: vec![2, 3] }, bytes); "unknown-value" }
+        11 => { p.global.unknown.insert(raw::Key { type_value: 0x78, key: bytes.clone() }, vec![9]); p.outputs_mut()[0].unknown.insert(raw::Key { type_value: 0x78, key: bytes }, vec![]); "unknown-key-data" }
+        12 => { let k = raw::ProprietaryKey { prefix: b"foo".to_vec(), subtype: 3, key: vec![] }; p.global.proprietary.insert(k.clone(), bytes.clone()); p.inputs_mut()[0].proprietary.insert(k.clone(), bytes.clone()); p.outputs_mut()[0].proprietary.insert(k, bytes); "proprietary-value" }
+        13 => { let k = raw::ProprietaryKey { prefix: b"pset".to_vec(), subtype: 0x70, key: bytes.clone() }; p.global.proprietary.insert(k.clone(), vec![1]); p.inputs_mut()[0].proprietary.insert(raw::ProprietaryKey { prefix: vec![], subtype: 0, key: bytes }, vec![]); p.outputs_mut()[0].proprietary.insert(k, vec![2]); "proprietary-key-data" }
+        14 => { let k = raw::ProprietaryKey { prefix: bytes, subtype: 1, key: vec![5] }; p.global.proprietary.insert(k.clone(), vec![1]); p.outputs_mut()[0].proprietary.insert(k, vec![]); "proprietary-prefix" }
+        15 => { p.inputs_mut()[0].ripemd160_preimages.insert(ripemd160::Hash::hash(&bytes), bytes.clone()); p.inputs_mut()[0].hash160_preimages.insert(hash160::Hash::hash(&bytes), bytes); "preimage-ripemd160-hash160" }
+        16 => { p.inputs_mut()[0].sha256_preimages.insert(sha256::Hash::hash(&bytes), bytes.clone()); p.inputs_mut()[0].hash256_preimages.insert(sha256d::Hash::hash(&bytes), bytes); "preimage-sha256-hash256" }
+        17 => { p.inputs_mut()[0].pegin_witness = Some(vec![vec![1], bytes.clone(), vec![]]); p.inputs_mut()[0].final_script_witness = Some(vec![bytes, vec![2, 3]]); "witness-element" }
+        18 => { let k = n.min(0x101); p.inputs_mut()[0].pegin_witness = Some((0..k).map(|j| vec![j as u8; j % 3]).collect()); p.inputs_mut()[0].final_script_witness = Some((0..k).map(|_| vec![]).collect()); "witness-element-count" }
+        19 => { p.inputs_mut()[0].partial_sigs.insert(rbpk(rng), bytes.clone()); p.inputs_mut()[0].pegin_txout_proof = Some(bytes); "partial-sig-and-txout-proof" }
+        20 => { let k = n.min(0x101); let ks = path(rng, k / 4); p.inputs_mut()[0].bip32_derivation.insert(rbpk(rng), ks.clone()); p.outputs_mut()[0].bip32_derivation.insert(rbpk(rng), ks.clone()); p.global.xpub.insert(rxpub(rng), ks); "keysource-path" }
+        21 => { let k = n.min(0x101); let h = hashes(rng, k); let ks = path(rng, 2); p.inputs_mut()[0].tap_key_origins.insert(rxonly(rng), (h.clone(), ks.clone())); p.outputs_mut()[0].tap_key_origins.insert(rxonly(rng), (h, ks)); "tap-key-origin-leaf-hash-count" }
+        22 => { let mut t = rtx(rng, Feat { big: false, no_witness: false }, &mut vec![]); if t.output.is_empty() { t.output.push(rtxout(rng, Feat { big: false, no_witness: true }, &mut vec![])); } t.output[0].script_pubkey = script.clone(); p.inputs_mut()[0].non_witness_utxo = Some(t); let mut o = rtxout(rng, Feat { big: false, no_witness: true }, &mut vec![]); o.script_pubkey = script; p.inputs_mut()[0].witness_utxo = Some(o); "utxo-script" }
+        23 => { let k = n.min(0x101); for _ in 0..k.min(0x101) / 0x40 { let t = rtweak(rng); if !p.global.scalars.contains(&t) { p.global.scalars.push(t); } } p.inputs_mut()[0].issuance_value_rangeproof = Some(rrangeproof(rng)); "scalars-and-proof" }
+        24 => { let mut cb = vec![rleafver(rng).as_u8()]; cb.extend_from_slice(&rxonly(rng).serialize()); cb.extend(rbytes(rng, 32 * (n.min(0x101) / 40))); p.inputs_mut()[0].tap_scripts.insert(ControlBlock::from_slice(&cb).unwrap(), (Script::from(vec![0x51]), rleafver(rng))); "control-block-key-length" }
+        25 => { use elements::bitcoin::{absolute, transaction, Amount, ScriptBuf, TxIn as BIn, TxOut as BOut, Witness};
+                 p.inputs_mut()[0].pegin_tx = Some(bitcoin::Transaction { version: transaction::Version(2), lock_time: absolute::LockTime::ZERO,
+                    input: vec![BIn { previous_output: bitcoin::OutPoint { txid: bitcoin::Txid::from_byte_array(r32(rng)), vout: 0 }, script_sig: ScriptBuf::from_bytes(bytes.clone()), sequence: bitcoin::Sequence(0), witness: Witness::new() }],
+                    output: vec![BOut { value: Amount::from_sat(1), script_pubkey: ScriptBuf::from_bytes(bytes) }] }); "pegin-tx-script" }
+        _ => { p.inputs_mut()[0].tap_key_sig = Some(rschnorr(rng)); p.inputs_mut()[0].tap_scripts.insert(rcontrolblock(rng), (script.clone(), rleafver(rng))); p.inputs_mut()[0].tap_scripts.insert(rcontrolblock(rng), (script, rleafver(rng))); "two-tap-leaf-scripts" }
     }
 }
 fn base(rng: &mut ChaCha20Rng, nin: usize, nout: usize) -> Pset {
@@ -526,6 +572,25 @@ pub fn gen(rng: &mut ChaCha20Rng, n: usize, thorough: bool) -> Vec<Case> {
         let mut p = base(rng, 0, 1); p.outputs_mut()[0].tap_tree = Some(taptree_of(rng, &sh));
         let b = serialize(&p); out.push(mk("built", &b, vec!["src:taptree".into(), format!("leaves:{}", nl)], true));
     } }
+    // (i-b') every nested variable-length site x the lengths on both sides of every compact-size boundary
+    //        (0xfc | 0xfd, 0xffff | 0x10000; the 64 KiB pair for the tap-tree sites and a rotating ninth of the others per run, for all of them in the thorough tier)
+    for site in 0..N_SITES {
+        let mut lens = vec![0usize, 0xfc, 0xfd, 0xfe, 0x100];
+        if thorough || site < 2 || site % 9 == (n % 9) { lens.extend_from_slice(&[0xffff, 0x10000]); }
+        for l in lens {
+            let mut p = base(rng, 1, 1);
+            let name = set_site(&mut p, site, l, rng);
+            let b = serialize(&p);
+            if l <= 0x100 { valid.push(b.clone()); }
+            out.push(mk("built", &b, vec!["src:varint-boundary".into(), format!("site:{}", name), format!("len:{:#x}", l)], true));
+        }
+    }
+    // ELIP-100 metadata whose contract length sits on a boundary (through the accessors)
+    for l in [0xfcusize, 0xfd, 0x100, 0xffff, 0x10000] {
+        let b = serialize(&base(rng, 1, 1));
+        let value = AssetMetadata::new(String::from_utf8(rbytes(rng, l).iter().map(|x| 0x20 + x % 0x5f).collect()).unwrap(), OutPoint::new(Txid::from_byte_array(r32(rng)), rng.gen())).serialize();
+        out.push(Case { text: format!("{} {} {} {} 0", head("elip", &b), hx(&b), hex(&r32(rng)), hx(&value)), tags: vec!["src:varint-boundary".into(), "site:elip100-contract".into(), format!("len:{:#x}", l), "mode:elip".into()], nontrivial: true });
+    }
     // (i-c) empty and boundary shapes
     for (ni, no) in [(0usize, 0usize), (0, 1), (1, 0), (3, 2)] { let p = base(rng, ni, no); let b = serialize(&p); valid.push(b.clone()); out.push(mk("built", &b, vec!["src:shape".into(), format!("maps:{}x{}", ni, no)], true)); }
     // (i-d) random subsets
